@@ -359,6 +359,17 @@ Section Cells.
   Proof. unfold final_cost. apply cell_cost_nonneg; lia. Qed.
 End Cells.
 
+(* the hypotheses are satisfiable: a 3 x 2 table; two cheap matches, then the surplus target element is inserted *)
+Example engine_example :
+  let rc := [2; 3] in let ic := [1; 4; 1] in let mcs := [[0; 5]; [5; 0]; [1; 1]] in
+  dims_ok rc ic mcs /\ Forall (fun x => 0 <= x) rc /\ Forall (fun x => 0 <= x) ic /\
+  Forall (Forall (fun x => 0 <= x)) mcs /\
+  alignment rc ic mcs = [OMatch 0 0; OMatch 1 1; OIns 2] /\ final_cost rc ic mcs = 1.
+Proof.
+  cbv zeta. split; [split; [reflexivity|repeat constructor]|].
+  repeat split; try reflexivity; repeat constructor; lia.
+Qed.
+
 (* ---------------------------------------------------------------- trim / middle, for any eqb and any lists *)
 Section Trim.
   Context {A B : Type} (eqb : A -> B -> bool).
